@@ -194,6 +194,25 @@ fn annual_sig(ep: &EnergyPerformance) -> Vec<f32> {
     let b = &ep.balance;
     vec![b.used.epus, b.used.nepus, b.prod.an, b.del.an, b.del.grid, b.exp.an, b.exp.grid, b.exp.nepus, b.we.a.ren, b.we.a.nren, b.we.a.co2, b.we.b.ren, b.we.b.nren, b.we.b.co2, if (b.we.b.ren + b.we.b.nren).abs() > 1e-2 { ep.rer } else { 0.0 }]
 }
+/// annual_sig plus the EPB use of every service (in the fixed order of SERVICES_ALL)
+fn annual_sig2(ep: &EnergyPerformance) -> Vec<f32> {
+    let mut v = annual_sig(ep);
+    for s in Service::SERVICES_ALL { v.push(ep.balance.used.epus_by_srv.get(&s).copied().unwrap_or(0.0)); }
+    v
+}
+/// the same components with the time steps permuted: how = 0 reversed, n > 0 rotated left by n
+fn permute_text(t: &str, how: usize) -> String {
+    t.lines().map(|l| {
+        if l.trim_start().starts_with('#') { return l.to_string(); }
+        let f: Vec<&str> = l.split(',').collect();
+        let mut first_val = f.len();
+        while first_val > 0 && f[first_val - 1].trim().parse::<f32>().is_ok() { first_val -= 1; }
+        if first_val == 0 && f.len() > 1 { first_val = 1; } // a leading numeric id is not a value
+        let mut vals: Vec<&str> = f[first_val..].to_vec();
+        if vals.len() > 1 { if how == 0 { vals.reverse(); } else { let n = how % vals.len(); vals.rotate_left(n); } }
+        f[..first_val].iter().cloned().chain(vals.into_iter()).collect::<Vec<_>>().join(",")
+    }).collect::<Vec<_>>().join("\n")
+}
 fn sig_eq(a: &[f32], b: &[f32]) -> Option<usize> {
     a.iter().zip(b).position(|(x, y)| !eq(*x, *y))
 }
@@ -213,10 +232,10 @@ pub fn check(pid: &str, seed: u64) -> Value {
     if ["C05", "C06", "C07", "C08", "C10", "C16"].contains(&pid) {
         let mut rep = crate::preds2::Rep { evals: 0, nontrivial: 0, failures: vec![], samples: vec![] };
         let (domain, rule) = match pid {
-            "C05" => { crate::preds2::c05(&mut rep); ("EAMBIENTE / TERMOSOLAR x two systems with ids from {-1,0,1} (also the same id twice) x use in {0, 2, (3,1)} x declared production in {none, 1, 5, (0,4)} x one use, two EPB uses, or an EPB and a non-EPB use per system; 2 steps", "every generated file has ambient / solar components") }
+            "C05" => { crate::preds2::c05(&mut rep); crate::preds2::c05_special(&mut rep); ("EAMBIENTE / TERMOSOLAR x two systems with ids from {-1,0,1} (also the same id twice) x use in {0, 2, (3,1)} x declared production in {none, 1, 5, (0,4)} x one use, two EPB uses, or an EPB and a non-EPB use per system; 2 steps", "every generated file has ambient / solar components") }
             "C06" => { crate::preds2::c06(&mut rep); crate::preds2::c06_special(&mut rep); ("system 1 with services {CAL},{CAL,ACS},{CAL,REF},{CAL,ACS,REF} x outputs from {30,10,-10,(30,0),(10,0),(0,20)} x AUX in {4,(4,2),(0,3)} x with/without a second single-service system with AUX x electricity otherwise present or absent", "multi-service systems are the non-trivial cases") }
             "C16" => { crate::preds2::c16(&mut rep, seed); ("the repository's test_data component files, the special buildings of the other predicates, 21 hand-written edge shapes (AUX without consumption, DHW demand with biomass and PV, empty / short / non-numeric / non-finite fields, different lengths) and 60 seeded token- or line-level corruptions (drop, duplicate, swap, replace) of each of the first 20 files; each parsed, evaluated with the full and the stripped factor set in both load-matching modes and passed to the DHW renewable fraction, under catch_unwind", "an input is non-trivial when it parses and at least one evaluation succeeds") }
-            "C10" => { crate::preds2::c10(&mut rep, seed); ("4 base files x {6 random line orders, comments/blank/header/BOM/whitespace and their combinations, ids renumbered, id 0 omitted, one component split in two lines} + 60 repeated evaluations each", "every rewriting is non-trivial") }
+            "C10" => { crate::preds2::c10(&mut rep, seed); ("6 base files x {6 random line orders, comments/blank/header/BOM/whitespace and their combinations, ids renumbered, id 0 omitted, one component split in two lines} + 60 repeated evaluations each", "every rewriting is non-trivial") }
             _ => { crate::preds2::c07(&mut rep, seed); ("factor files over every non-empty subset of {ELECTRICIDAD,GASNATURAL,BIOMASA,EAMBIENTE,RED1} with pairwise distinct marker values x 8 sets of user-given export factors x user RED1/RED2 {none, red1, both}; then up to 12 buildings over the carriers of the set (PV surplus, cogeneration with one or two fuels, non-EPB uses of electricity / ambient heat / solar thermal, outputs and auxiliaries) x (k_exp, load matching) in {(0,off),(0.5,on)}, each with the full and the stripped set", "every accepted factor file is non-trivial") }
         };
         let fails: Vec<Value> = rep.failures.into_iter().filter(|f| { let c = f["clause"].as_str().unwrap_or(""); match pid { "C07" => c.starts_with("C07"), "C08" => c.starts_with("C08"), _ => true } }).collect();
@@ -255,8 +274,8 @@ pub fn check(pid: &str, seed: u64) -> Value {
                 }
                 "C03" => {
                     let mut v = vec![];
-                    for k in [0.0f32, 0.25, 0.5, 1.0] { evals += 1; if let Ok(ep) = run(&tcase(t, k, 1.0, lm)) { v.push((k, ep)); } }
-                    if v.len() == 4 { nontrivial += 1; if let Some(w) = c03(&v) { failures.push(json!({"clause": "C03", "components": t, "load_matching": lm, "what": w})); } }
+                    for k in [0.0f32, 0.005, 0.125, 0.25, 1.0 / 3.0, 0.5, 0.745, 1.0] { evals += 1; if let Ok(ep) = run(&tcase(t, k, 1.0, lm)) { v.push((k, ep)); } }
+                    if v.len() == 8 { nontrivial += 1; if let Some(w) = c03(&v) { failures.push(json!({"clause": "C03", "components": t, "load_matching": lm, "what": w})); } }
                 }
                 "C14" => {
                     let steps_n = t.lines().next().map(|l| l.split(',').filter(|x| x.trim().parse::<f32>().is_ok()).count()).unwrap_or(1).max(1);
@@ -298,6 +317,22 @@ pub fn check(pid: &str, seed: u64) -> Value {
                         }
                     }
                 }
+                "C09" => {
+                    for k in [0.0f32, 1.0] {
+                        evals += 1;
+                        let base = match run(&tcase(t, k, 1.0, lm)) { Ok(e) => annual_sig2(&e), Err(_) => continue };
+                        nontrivial += 1;
+                        for (name, how) in [("reversed", 0usize), ("rotated by one", 1), ("rotated by two", 2)] {
+                            let var = permute_text(t, how);
+                            if var == t { continue; }
+                            evals += 1;
+                            if let Ok(e) = run(&tcase(&var, k, 1.0, lm)) {
+                                let sg = annual_sig2(&e);
+                                if let Some(p) = sig_eq(&base, &sg) { failures.push(json!({"clause": "C09", "components": t, "k_exp": k, "load_matching": lm, "what": format!("annual result #{} changes when the steps are {}: {} vs {}", p, name, base[p], sg[p])})); }
+                            }
+                        }
+                    }
+                }
                 "C12" => {
                     if lm { continue; }
                     evals += 2;
@@ -307,6 +342,20 @@ pub fn check(pid: &str, seed: u64) -> Value {
             }
         }
     }
+    if pid == "C12" {
+        // an hourly series (8760 steps) with on-site and cogenerated electricity
+        let n = 8760usize;
+        let col = |f: &dyn Fn(usize) -> f32| (0..n).map(|i| format!("{}", f(i))).collect::<Vec<_>>().join(",");
+        let hourly = format!("1,CONSUMO,ILU,ELECTRICIDAD,{}\n2,PRODUCCION,EL_INSITU,{}\n3,PRODUCCION,EL_COGEN,{}\n3,CONSUMO,COGEN,GASNATURAL,{}\n4,CONSUMO,NEPB,ELECTRICIDAD,{}",
+            col(&|i| 3.5 + (i % 5) as f32), col(&|i| if i % 24 < 8 { 0.0 } else { 0.8 * (i % 7) as f32 }), col(&|i| if i % 6 == 0 { 4.0 } else { 0.0 }), col(&|i| if i % 6 == 0 { 10.0 } else { 0.0 }), col(&|i| (i % 3) as f32 * 0.5));
+        evals += 2;
+        if let (Ok(a), Ok(b)) = (run(&tcase(&hourly, 0.0, 1.0, true)), run(&tcase(&hourly, 0.0, 1.0, false))) {
+            nontrivial += 1;
+            if let Some(w) = c12(&a, &b) { failures.push(json!({"clause": "C12", "components": "8760-step building: ILU use 3.5 + i mod 5, PV 0.8 (i mod 7) by day, cogeneration 4 kWh every 6th hour, non-EPB use", "what": w})); }
+        } else {
+            failures.push(json!({"clause": "C12", "components": "8760-step building", "what": "evaluation failed"}));
+        }
+    }
     if pid == "C11" {
         // the DHW renewable fraction does not depend on the reference area nor (for values well above the 0.01 kWh cut-offs) on a common scale of the energies
         let dhw: Vec<Box<dyn Fn(f32) -> String>> = vec![
@@ -314,6 +363,10 @@ pub fn check(pid: &str, seed: u64) -> Value {
             Box::new(|c| format!("DEMANDA,ACS,{}\n1,CONSUMO,ACS,ELECTRICIDAD,{}\n1,CONSUMO,ACS,EAMBIENTE,{}\n2,PRODUCCION,EL_INSITU,{}\n3,CONSUMO,CAL,GASNATURAL,{}", 100.0 * c, 30.0 * c, 70.0 * c, 10.0 * c, 40.0 * c)),
             Box::new(|c| format!("DEMANDA,ACS,{}\n1,CONSUMO,ACS,GASNATURAL,{}\n2,CONSUMO,ACS,TERMOSOLAR,{}\n2,AUX,{}\n2,SALIDA,ACS,{}", 100.0 * c, 50.0 * c, 60.0 * c, 0.3 * c, 60.0 * c)),
             Box::new(|c| format!("DEMANDA,ACS,{}\n1,CONSUMO,ACS,RED1,{}\n2,CONSUMO,ACS,ELECTRICIDAD,{}\n2,CONSUMO,ACS,EAMBIENTE,{}\n2,AUX,{}", 100.0 * c, 40.0 * c, 0.45 * c, 60.0 * c, 0.44 * c)),
+            // small systems whose values are not multiples of 0.01 kWh
+            Box::new(|c| format!("DEMANDA,ACS,{}\n1,CONSUMO,ACS,GASNATURAL,{}\n2,CONSUMO,ACS,BIOMASA,{}\n2,SALIDA,ACS,{}\n3,CONSUMO,ACS,BIOMASADENSIFICADA,{}\n3,SALIDA,ACS,{}", 1.0 * c, 0.6 * c, 0.3 * c, 0.2525 * c, 0.2 * c, 0.1225 * c)),
+            Box::new(|c| format!("DEMANDA,ACS,{}\n1,CONSUMO,ACS,ELECTRICIDAD,{}\n1,CONSUMO,ACS,EAMBIENTE,{}\n1,AUX,{}\n2,PRODUCCION,EL_INSITU,{}", 2.0 * c, 0.555 * c, 1.445 * c, 0.1234 * c, 0.3 * c)),
+            Box::new(|c| format!("DEMANDA,ACS,{},{}\n1,CONSUMO,ACS,GASNATURAL,{},{}\n2,CONSUMO,ACS,BIOMASA,{},{}\n2,SALIDA,ACS,{},{}\n2,AUX,{},{}", 0.5 * c, 0.5 * c, 0.3 * c, 0.3 * c, 0.15 * c, 0.15 * c, 0.0625 * c, 0.0645 * c, 0.0125 * c, 0.0135 * c)),
         ];
         for mk in &dhw {
             let t1 = mk(1.0);
@@ -327,7 +380,7 @@ pub fn check(pid: &str, seed: u64) -> Value {
                 let same = match (f0, f) { (Some(a), Some(b)) => eq(a, b), (None, None) => true, _ => false };
                 if !same { failures.push(json!({"clause": "C11.dhw_fraction_area", "components": t1, "what": format!("DHW renewable fraction {:?} with area 1, {:?} with area {}", f0, f, area)})); }
             }
-            for c in [2.0f32, 8.0, 1024.0] {
+            for c in [2.0f32, 8.0, 128.0, 1024.0] {
                 evals += 1;
                 let f = frac(&mk(c), 1.0);
                 let same = match (f0, f) { (Some(a), Some(b)) => eq(a, b), (None, None) => true, _ => false };
